@@ -264,8 +264,15 @@ pub fn compare(exp: &Value, raw: &RawOutcome) -> Vec<Mismatch> {
                             }
                         }
                     }
-                    if l.kind != "unknown" && !l.alt.is_empty() {
-                        out.push(Mismatch { class: "alt", why: format!("suggestion on a non-unknown leaf `{}`", l.text) });
+                    if l.kind != "unknown" {
+                        if !l.alt.is_empty() {
+                            out.push(Mismatch { class: "alt", why: format!("suggestion on a non-unknown leaf `{}`", l.text) });
+                        }
+                    } else {
+                        let alts: Vec<&str> = m["alts"].as_array().unwrap().iter().map(|a| a.as_str().unwrap()).collect();
+                        if !alts.contains(&l.alt.as_str()) {
+                            out.push(Mismatch { class: "alt", why: format!("unknown `{}`: suggestion `{}` is not among the best eligible names {:?}", l.name, l.alt, alts) });
+                        }
                     }
                 }
             }
@@ -297,6 +304,9 @@ pub fn compare(exp: &Value, raw: &RawOutcome) -> Vec<Mismatch> {
     }
     for (e, o) in el.iter().zip(raw.leaves.iter()) {
         let ek = e["k"].as_str().unwrap();
+        if ek == "unknown" && e["alt"].as_str().unwrap() != o.alt {
+            out.push(Mismatch { class: "model", why: format!("unknown `{}`: machine predicted suggestion `{}` observed `{}`", o.name, e["alt"], o.alt) });
+        }
         let kind_ok = ek == o.kind || (ek == "rejected" && !["unknown", "dup", "missing", "toofew", "toomany"].contains(&o.kind.as_str()))
             || (ek == "custom" && o.kind == "custom");
         let name_ok = ek == "rejected" || ek == "custom" || e["n"].as_str().unwrap() == o.name;
